@@ -238,7 +238,10 @@ def handle (j : Json) : R Json := do
       ("reply_matches_known", Json.bool (replyMatchesKnownB tbl final)),
       ("reply_matches", Json.bool (replyMatchesB tbl final)),
       ("no_double", Json.bool (noDoubleDeliveryB final)),
-      ("verdicts", jstrs (callers.map (fun c => verdictStr (judgeCaller tbl final closedAt everClosing waitMs c)))),
+      ("verdicts", jstrs (callers.map (fun c =>
+        -- the state in which the caller's `put` was made (state `putAt` of the observed run), if it made one
+        let putClosing := c.id < final.nextId && ((states.drop c.putAt).head?.map (·.closing)).getD false
+        verdictStr (judgeCaller tbl final closedAt everClosing waitMs putClosing c)))),
       ("final", summary final)]
   | _ => throw s!"C11: unknown verb {k}"
 
